@@ -533,9 +533,15 @@ func drive(id, tier string) int {
 		}
 		if st.err != nil {
 			idx := readCrumb(i)
-			tail := tailFile(filepath.Join(dir, fmt.Sprintf("w%d.stderr", i)), 6000)
-			addViolation(violation{Idx: idx, Detail: fmt.Sprintf("worker process died (%v) while running case %d\n%s", st.err, idx, tail)})
-			continue
+			tail := tailFile(filepath.Join(dir, fmt.Sprintf("w%d.stderr", i)), 8000)
+			if n := strings.Count(tail, "WARNING: DATA RACE"); n > 0 {
+				// the race detector lets the worker finish (halt_on_error=0) and makes it exit non-zero
+				addViolation(violation{Idx: -4, Detail: fmt.Sprintf("the race detector reported %d data race(s) in worker %d:\n%s", n, i, tail)})
+				merged.Counters["race_reports"] += int64(n)
+			} else {
+				addViolation(violation{Idx: idx, Detail: fmt.Sprintf("worker process died (%v) while running case %d\n%s", st.err, idx, tail)})
+				continue
+			}
 		}
 		b, err := os.ReadFile(filepath.Join(dir, fmt.Sprintf("w%d.json", i)))
 		var r workerResult
